@@ -374,7 +374,8 @@ def build_annotations(ctx, env):
         bulk.append(["F", wrap(s, ch)])
         bulk.append(["C", wrap(s, ch)])
         bulk.append(["tb", wrap(s, ch)])
-    for t in (["C", ["tf"]], ["C", ["tb", ["b", "int"]]], ["F", ["tc", [["b", "int"], ["b", "str"]]]],
+    for t in (["u", "typing", [["b", "int"], ["A", ["b", "NoneType"]]]], ["u", "typing", [["b", "int"], ["N", ["A", ["b", "NoneType"]]]]],
+              ["u", "typing", [["b", "str"], ["A", ["A", ["b", "int"]]]]], ["C", ["tf"]], ["C", ["tb", ["b", "int"]]], ["F", ["tc", [["b", "int"], ["b", "str"]]]],
               ["C", ["u", "optional", [["b", "int"]]]], ["F", ["u", "pipe", [["b", "int"], ["b", "NoneType"]]]]):
         bulk.append(t)
     # unions: member sets x the three spellings
@@ -543,7 +544,8 @@ def oracle(env, inspection, o, spec):
     og, ar = typing.get_origin(o), typing.get_args(o)
     sf = {}
     sf["isuniontype"] = og is typing.Union or og is types.UnionType
-    sf["isoptionaltype"] = (sf["isuniontype"] and type(None) in ar) or (og is typing.Literal and None in ar) or o is typing.Optional
+    sf["isoptionaltype"] = ((sf["isuniontype"] and any(o_unwrap(x) in (None, type(None)) for x in ar))
+                            or (og is typing.Literal and None in ar) or o is typing.Optional)
     sf["isliteral"] = og is typing.Literal or (isinstance(o, typing.ForwardRef) and o.__forward_arg__.startswith("Literal"))
     sf["isfinal"] = og is typing.Final or o is typing.Final
     sf["isclassvartype"] = og is typing.ClassVar or o is typing.ClassVar
